@@ -2978,6 +2978,21 @@ func (c S3ApiController) DeleteObjects(ctx *fiber.Ctx) error {
 			})
 	}
 
+	// the keys and version ids of the body are joined into paths like
+	// the ones of the request line, so they get the same check
+	for _, obj := range dObj.Objects {
+		if obj.Key == nil || !backend.IsSafeObjectKey(*obj.Key) ||
+			(obj.VersionId != nil && !backend.IsSafeID(*obj.VersionId)) {
+			return SendResponse(ctx, s3err.GetAPIError(s3err.ErrInvalidRequest),
+				&MetaOpts{
+					Logger:      c.logger,
+					MetricsMng:  c.mm,
+					Action:      metrics.ActionDeleteObjects,
+					BucketOwner: parsedAcl.Owner,
+				})
+		}
+	}
+
 	err = auth.VerifyAccess(ctx.Context(), c.be,
 		auth.AccessOptions{
 			Readonly:      c.readonly,
